@@ -1,7 +1,15 @@
 """C01, part B -- the runtime part: sanitizer fuzz / enumeration stream (DESIGN.md section 4, C01 "runtime part").
 
     run_stream(ctx, b) -> coverage dict        b = core.build_repo("asan")
-    replay_one(ctx, b, replay_obj) -> 0 | 1     re-run a replay object produced by run_stream
+    replay_one(ctx, b, replay_obj) -> 0 | 1     re-run a replay object produced by run_stream (or a minimal
+                                                {"entry","newxta","builder","part","input_b64"|"input_text"})
+    triage_inputs(ctx, b, items) -> [(key|None, outcome)]   run inputs found elsewhere through the same harness + keying
+
+Entries: xmlbuf (parse_XML_buffer), xmlfile (parse_XML_file), xta (parse_XTA whole text), prop (parseProperty),
+part (parse_XTA(str, builder, newxta, part, xpath) inside the builder context the XML reader establishes for that kind of
+block: proc_begin / proc_location / proc_edge_begin / proc_instance_line / proc_message ...), partraw (the same entry point
+on a fresh builder).  Builders: doc (Document overloads = DocumentBuilder + TypeChecker + FeatureChecker, then the stored
+queries through TigaPropertyBuilder), tiga (TigaPropertyBuilder over a parsed context model), pretty (PrettyPrinter).
 
 Every input is one call of a public parsing entry point of the real library (harness/c01.cpp, ASan + UBSan +
 _GLIBCXX_ASSERTIONS build), in its own forked child, under a CPU-time budget proportional to the input length.
